@@ -227,6 +227,12 @@ func (c *Ctx) strLit(s string) string {
 	c.declare(n, "Str")
 	c.items = append(c.items, fmt.Sprintf("; %s = %q", n, s))
 	c.assert(sEq(app("str_len", n), intLit(int64(len(s)))))
+	// the bytes of short literals are known
+	if len(s) <= 16 {
+		for k := 0; k < len(s); k++ {
+			c.assert(sEq(app("str_at", n, intLit(int64(k))), intLit(int64(s[k]))))
+		}
+	}
 	return n
 }
 
@@ -244,6 +250,7 @@ const smtPreamble = `(declare-sort Str 0)
 (declare-fun str_zeros (Int) Str)
 (declare-fun str_set (Str Int Int) Str)
 (declare-fun str_splice (Str Int Str) Str)
+(declare-fun byte1 (Int) Str)
 (declare-fun bytes_str ((Array Int Int) Int) Str)
 (declare-fun str_bytes (Str) (Array Int Int))
 (declare-fun zeroarr_Str () (Array Int Str))
@@ -258,13 +265,15 @@ type condAxiom struct {
 }
 
 var condAxioms = []condAxiom{
-	{"str_concat", "(assert (forall ((a Str) (b Str)) (! (= (str_len (str_concat a b)) (+ (str_len a) (str_len b))) :pattern ((str_concat a b)))))\n(assert (forall ((a Str)) (! (= (str_concat a str_empty) a) :pattern ((str_concat a str_empty)))))\n(assert (forall ((a Str)) (! (= (str_concat str_empty a) a) :pattern ((str_concat str_empty a)))))\n(assert (forall ((a Str) (b Str) (c Str)) (! (= (str_concat (str_concat a b) c) (str_concat a (str_concat b c))) :pattern ((str_concat (str_concat a b) c)))))\n(assert (forall ((a Str) (b Str) (i Int) (j Int)) (! (=> (and (<= (str_len a) i) (<= i j)) (= (str_sub (str_concat a b) i j) (str_sub b (- i (str_len a)) (- j (str_len a))))) :pattern ((str_sub (str_concat a b) i j)))))\n(assert (forall ((a Str) (b Str) (i Int) (j Int)) (! (=> (and (<= 0 i) (<= i j) (<= j (str_len a))) (= (str_sub (str_concat a b) i j) (str_sub a i j))) :pattern ((str_sub (str_concat a b) i j)))))\n"},
+	{"str_at", "(assert (forall ((s Str) (i Int)) (! (=> (and (<= 0 i) (< i (str_len s))) (and (<= 0 (str_at s i)) (<= (str_at s i) 255))) :pattern ((str_at s i)))))\n"},
+	{"byte1", "(assert (forall ((x Int)) (! (and (= (str_len (byte1 x)) 1) (=> (and (<= 0 x) (<= x 255)) (= (str_at (byte1 x) 0) x))) :pattern ((byte1 x)))))\n(assert (forall ((s Str) (x Int)) (! (=> (and (= (str_len s) 1) (= (str_at s 0) x)) (= s (byte1 x))) :pattern ((byte1 x) (str_len s)))))\n(assert (forall ((s Str) (a Int) (b Int)) (! (=> (and (<= 0 a) (<= a b) (< b (str_len s))) (= (str_concat (str_sub s a b) (byte1 (str_at s b))) (str_sub s a (+ b 1)))) :pattern ((str_concat (str_sub s a b) (byte1 (str_at s b)))))))\n"},
+	{"str_concat", "(assert (forall ((a Str) (b Str)) (! (= (str_len (str_concat a b)) (+ (str_len a) (str_len b))) :pattern ((str_concat a b)))))\n(assert (forall ((a Str)) (! (= (str_concat a str_empty) a) :pattern ((str_concat a str_empty)))))\n(assert (forall ((a Str) (b Str) (i Int)) (! (= (str_at (str_concat a b) i) (ite (< i (str_len a)) (str_at a i) (str_at b (- i (str_len a))))) :pattern ((str_at (str_concat a b) i)))))\n(assert (forall ((a Str)) (! (= (str_concat str_empty a) a) :pattern ((str_concat str_empty a)))))\n(assert (forall ((a Str) (b Str) (c Str)) (! (= (str_concat (str_concat a b) c) (str_concat a (str_concat b c))) :pattern ((str_concat (str_concat a b) c)))))\n(assert (forall ((a Str) (b Str) (i Int) (j Int)) (! (=> (and (<= (str_len a) i) (<= i j)) (= (str_sub (str_concat a b) i j) (str_sub b (- i (str_len a)) (- j (str_len a))))) :pattern ((str_sub (str_concat a b) i j)))))\n(assert (forall ((a Str) (b Str) (i Int) (j Int)) (! (=> (and (<= 0 i) (<= i j) (<= j (str_len a))) (= (str_sub (str_concat a b) i j) (str_sub a i j))) :pattern ((str_sub (str_concat a b) i j)))))\n"},
 	{"str", "(assert (forall ((s Str)) (! (>= (str_len s) 0) :pattern ((str_len s)))))\n(assert (forall ((s Str)) (! (=> (= (str_len s) 0) (= s str_empty)) :pattern ((str_len s)))))\n"},
-	{"bytes_str", "(assert (forall ((a (Array Int Int)) (n Int) (i Int)) (! (=> (and (<= 0 i) (< i n)) (= (str_at (bytes_str a n) i) (select a i))) :pattern ((str_at (bytes_str a n) i)))))\n"},
+	{"bytes_str", "(assert (forall ((a (Array Int Int)) (n Int) (i Int)) (! (=> (and (<= 0 i) (< i n) (<= 0 (select a i)) (<= (select a i) 255)) (= (str_at (bytes_str a n) i) (select a i))) :pattern ((str_at (bytes_str a n) i)))))\n"},
 	{"str_zeros", "(assert (forall ((n Int)) (! (=> (>= n 0) (= (str_len (str_zeros n)) n)) :pattern ((str_zeros n)))))\n(assert (forall ((n Int) (i Int)) (! (=> (and (<= 0 i) (< i n)) (= (str_at (str_zeros n) i) 0)) :pattern ((str_at (str_zeros n) i)))))\n"},
-	{"str_set", "(assert (forall ((s Str) (i Int) (b Int)) (! (= (str_len (str_set s i b)) (str_len s)) :pattern ((str_set s i b)))))\n(assert (forall ((s Str) (i Int) (b Int) (j Int)) (! (= (str_at (str_set s i b) j) (ite (and (= j i) (<= 0 i) (< i (str_len s))) b (str_at s j))) :pattern ((str_at (str_set s i b) j)))))\n(assert (forall ((s Str) (i Int) (b Int) (a Int) (c Int)) (! (=> (or (< i a) (>= i c)) (= (str_sub (str_set s i b) a c) (str_sub s a c))) :pattern ((str_sub (str_set s i b) a c)))))\n"},
+	{"str_set", "(assert (forall ((s Str) (i Int) (b Int)) (! (= (str_len (str_set s i b)) (str_len s)) :pattern ((str_set s i b)))))\n(assert (forall ((s Str) (i Int) (b Int) (j Int)) (! (= (str_at (str_set s i b) j) (ite (and (= j i) (<= 0 i) (< i (str_len s)) (<= 0 b) (<= b 255)) b (str_at s j))) :pattern ((str_at (str_set s i b) j)))))\n(assert (forall ((s Str) (i Int) (b Int) (a Int) (c Int)) (! (=> (or (< i a) (>= i c)) (= (str_sub (str_set s i b) a c) (str_sub s a c))) :pattern ((str_sub (str_set s i b) a c)))))\n"},
 	{"str_splice", "(assert (forall ((s Str) (o Int) (t Str)) (! (= (str_len (str_splice s o t)) (str_len s)) :pattern ((str_splice s o t)))))\n(assert (forall ((s Str) (o Int) (t Str)) (! (=> (and (<= 0 o) (<= (+ o (str_len t)) (str_len s))) (= (str_sub (str_splice s o t) o (+ o (str_len t))) t)) :pattern ((str_splice s o t)))))\n(assert (forall ((s Str) (o Int) (t Str) (j Int)) (! (=> (or (< j o) (>= j (+ o (str_len t)))) (= (str_at (str_splice s o t) j) (str_at s j))) :pattern ((str_at (str_splice s o t) j)))))\n(assert (forall ((s Str) (o Int) (t Str) (a Int) (c Int)) (! (=> (or (<= c o) (>= a (+ o (str_len t)))) (= (str_sub (str_splice s o t) a c) (str_sub s a c))) :pattern ((str_sub (str_splice s o t) a c)))))\n"},
-	{"str_sub", "(assert (forall ((s Str) (a Int) (b Int)) (! (=> (and (<= 0 a) (<= a b) (<= b (str_len s))) (= (str_len (str_sub s a b)) (- b a))) :pattern ((str_sub s a b)))))\n(assert (forall ((s Str)) (! (= (str_sub s 0 (str_len s)) s) :pattern ((str_sub s 0 (str_len s))))))\n(assert (forall ((s Str) (a Int) (b Int) (i Int)) (! (=> (and (<= 0 a) (<= 0 i) (< (+ a i) b) (<= b (str_len s))) (= (str_at (str_sub s a b) i) (str_at s (+ a i)))) :pattern ((str_at (str_sub s a b) i)))))\n(assert (forall ((s Str) (a Int) (b Int) (c Int) (d Int)) (! (=> (and (<= 0 a) (<= 0 c) (<= c d) (<= (+ a d) b) (<= b (str_len s))) (= (str_sub (str_sub s a b) c d) (str_sub s (+ a c) (+ a d)))) :pattern ((str_sub (str_sub s a b) c d)))))\n(assert (= (str_len str_empty) 0))\n"},
+	{"str_sub", "(assert (forall ((s Str) (a Int) (b Int)) (! (=> (and (<= 0 a) (<= a b) (<= b (str_len s))) (= (str_len (str_sub s a b)) (- b a))) :pattern ((str_sub s a b)))))\n(assert (forall ((s Str)) (! (= (str_sub s 0 (str_len s)) s) :pattern ((str_sub s 0 (str_len s))))))\n(assert (forall ((s Str) (a Int) (b Int) (i Int)) (! (=> (and (<= 0 a) (<= 0 i) (< (+ a i) b) (<= b (str_len s))) (= (str_at (str_sub s a b) i) (str_at s (+ a i)))) :pattern ((str_at (str_sub s a b) i)))))\n(assert (forall ((s Str) (a Int) (b Int) (c Int) (d Int)) (! (=> (and (<= 0 a) (<= 0 c) (<= c d) (<= (+ a d) b) (<= b (str_len s))) (= (str_sub (str_sub s a b) c d) (str_sub s (+ a c) (+ a d)))) :pattern ((str_sub (str_sub s a b) c d)))))\n(assert (= (str_len str_empty) 0))\n(assert (forall ((s Str) (a Int) (b Int) (k Int)) (! (=> (and (<= 0 a) (<= a k) (< k b) (<= b (str_len s))) (= (str_at (str_sub s a b) (- k a)) (str_at s k))) :pattern ((str_sub s a b) (str_at s k)))))\n(assert (forall ((s Str) (a Int) (c Int) (b Int)) (! (=> (and (<= 0 a) (< a c) (<= c b) (<= b (str_len s))) (= (str_sub s c b) (str_sub (str_sub s a b) (- c a) (- b a)))) :pattern ((str_sub s a b) (str_sub s c b)))))\n"},
 	{"zeroarr_Str", "(assert (forall ((i Int)) (! (= (select zeroarr_Str i) str_empty) :pattern ((select zeroarr_Str i)))))\n"},
 	{"str_len", "(assert (= (str_len str_empty) 0))\n"},
 	{"bytes_str", "(assert (forall ((a (Array Int Int)) (n Int)) (! (=> (>= n 0) (= (str_len (bytes_str a n)) n)) :pattern ((bytes_str a n)))))\n(assert (= (str_len str_empty) 0))\n"},
